@@ -79,6 +79,7 @@ class Knobs(object):
         self.p_attr_event = 0.05   # an event named like the state attribute (must be refused)
         self.p_self_model = 0.05
         self.p_remove = 0.12
+        self.p_failing = 0.12      # failing reconfiguration calls, caught by the caller, followed by the corrected call
         self.__dict__.update(kw)
 
 
@@ -162,6 +163,17 @@ def gen_case(rng, kn):
             added.append(m)
     steps = rng.randint(2, kn.max_steps)
     for _ in range(steps):
+        if rng.random() < kn.p_failing:
+            # a call that must fail (the caller catches the exception), then the corrected call
+            cands = [x for x in range(n_models) if x not in added]
+            if cands:
+                if rng.random() < 0.6:
+                    ops.append(['model_bad', cands[0], 'nowhere'])   # add_model(model, initial=<unknown state>)
+                else:
+                    ops.append(['unmodel_bad', cands[0]])            # remove_model(<model that is not registered>)
+                ops.append(['model', cands[0]])
+                added.append(cands[0])
+            continue
         r = rng.random()
         if r < 0.40 and added:
             m = rng.choice(added)
@@ -309,6 +321,10 @@ class FlatRun(object):
                 m.add_model(obj)
                 if op[1] not in self.registered and any(obj is x for x in m.models):
                     self.registered.append(op[1])
+            elif k == 'model_bad':
+                m.add_model(self.objs[op[1]], initial=op[2])
+            elif k == 'unmodel_bad':
+                m.remove_model(self.objs[op[1]])
             elif k == 'fire':
                 if op[1] not in self.registered:
                     return 2, 0
@@ -373,6 +389,8 @@ class FlatRun(object):
                 out += [3] + enc_name(op[1]) + enc_opt_name(op[2]) + enc_opt_name(op[3])
             elif k == 'model':
                 out += [4, op[1]] + self.enc_obj(op[1])
+            elif k in ('model_bad', 'unmodel_bad'):
+                out += [6, 1]          # must raise ValueError and change nothing
             elif k == 'fire':
                 out += [5, op[1]] + enc_name(op[2])
         return out
@@ -742,6 +760,7 @@ def run_case(case, lean_answer):
     n_ops = len(case['ops'])
     for k, op in enumerate(case['ops']):
         had = op[0] == 'remove' and op[1] in run.machine.events
+        members = [id(x) for x in run.machine.models]
         err, res = run.do(op)
         if had and case['override'] and op[1] not in run.machine.events:
             for i in run.registered:
@@ -765,6 +784,12 @@ def run_case(case, lean_answer):
         orc = Oracle(run, twin)
         if op[0] == 'trans' and op[1] == run.attr and err != 1:
             orc.bad('event-named-like-the-state-attribute-accepted', op=op, error_code=err)
+        if op[0] in ('model_bad', 'unmodel_bad') and err == 0:
+            orc.bad('invalid-call-accepted', op=op)
+        if err != 0 and members != [id(x) for x in run.machine.models]:
+            # a call that raised leaves the registration as it was
+            orc.bad('failed-call-changed-the-registration', op=op, error_code=err,
+                    before=len(members), after=len(run.machine.models))
         try:
             orc.check(op, full=(k == n_ops - 1))
         except common.MachineryError:
